@@ -197,6 +197,12 @@ def run_case(case, seed):
         if svB[-1] >= 1e-5 * svB[0]:
             datasets.append((xB, yB, PB, (2,)))      # a second, different data set of the same sizes in the same process
         guess2 = tt_from(rand_cores(rng, n, [1] * p, case['rg']))
+        if max(case['rg']) > 1:
+            # noise-free data generated by a rank-ONE coefficient tensor (lower than the ranks of the guess): the fit is exact and
+            # the result must still have the ranks of the guess
+            xi1 = tt_from(rand_cores(rng, n, [1] * p, [1] * (p + 1)))
+            y_exact = np.tile(dn(xi1).reshape(-1) @ P, (case['dout'], 1)) * np.arange(1, case['dout'] + 1)[:, None]
+            datasets.append((x, y_exact, P, (1, 2)))
         for di, (xd, yd, Pd, rep_list) in enumerate(datasets + ([(x, y, P, (1, 2))] if case['dout'] >= 2 else [])):
           # last entry (two output rows): the initial guess given as a LIST of different trains, one per row (an undocumented
           # warm-start form: the routine works in the list's trains, so copies are handed over and not re-read)
